@@ -60,6 +60,7 @@ def extract_tokens_for_remove_operation(lToi):
         if myToi is not None:
             lReturn.append(myToi)
 
+    lReturn.sort(key=lambda oToi: oToi.get_start_index())
     return lReturn
 
 
